@@ -15,6 +15,7 @@ import Sgz.Model.Export
 import Sgz.Model.Window
 import Sgz.Model.Container
 import Sgz.Model.Header
+import Sgz.Model.Coords
 /-!
 Line-protocol driver over the executable model (`Sgz/Model`, Mathlib-free).  One request per line, one answer per
 line.  The Python harness sends the same request to the real implementation and diffs canonical answers.
@@ -57,6 +58,14 @@ def parseRead (ws : List String) : Option R :=
       | ["xl", k] => k.toInt?.map (Reader.readCrossline g)
       | ["zs", k] => k.toInt?.map (Reader.readZslice g)
       | ["vol"] => some (Reader.readVolume g)
+      | ["ilno", a, d, v] =>
+        match a.toInt?, d.toInt?, v.toInt? with
+        | some a, some d, some v => some (Coords.readInlineNumber g a d v)
+        | _, _, _ => none
+      | ["xlno", a, d, v] =>
+        match a.toInt?, d.toInt?, v.toInt? with
+        | some a, some d, some v => some (Coords.readCrosslineNumber g a d v)
+        | _, _, _ => none
       | "sub" :: rest =>
         match ints rest with
         | some [i0, i1, x0, x1, z0, z1] => some (Reader.readSubvolume g false i0 i1 x0 x1 z0 z1)
